@@ -25,6 +25,8 @@ def run(ctx):
     ctx.prove("fec", "C07.v", FEC_OBLIGATIONS)
     fec_cov = dict(ctx.coverage)
     rep, _ = V.harness_report(ctx, "^TestVerifC07$", "C07.report.json", files=["fec_test.go"])
+    # a re-tuning decoder: the same convergence case at small ids and just before the wrap (monitors only)
+    rep_rt, _ = V.harness_report(ctx, "^TestVerifC12Fec$", "C12fec.report.json", files=["fec_test.go"])
     summ = V.driver_compare(ctx, "fec", ["fec_model"], "fec_driver", "C07.log",
                             "fec.go encoder/decoder vs coq/fec/Fec.v on groups placed across the id wrap")
     ctx.coverage = core_cov
@@ -34,5 +36,6 @@ def run(ctx):
     ctx.coverage["trusted_base"] = core_cov.get("trusted_base", []) + [t for t in fec_cov.get("trusted_base", []) if t.startswith("Print Assumptions")]
     ctx.coverage.setdefault("theorems", {}).update({t: fec_cov.get("theorems", {}).get(t, "NOT CHECKED") for t in FEC_OBLIGATIONS})
     V.merge_report(ctx, rep, summ)
+    V.merge_report(ctx, rep_rt)
     ctx.coverage["rule"] = ("each random lossy history is run at offsets (isnA, isnB, clock) = (0,0,0), (2^31-w, 2^31-w/2, 2^31-40w), (2^32-1-w, 5, 2^32-1-7w), random, (2^32-1,2^32-1,2^32-1); "
                             "the offset-normalised traces must be identical; non-trivial = one history (5 runs)")
